@@ -230,8 +230,8 @@ Section Ops.
   Proof.
     intros [Hp Hc]. destruct (validate n ts perm) as [n' o] eqn:Ev. cbn [snd].
     intros Ho. subst o.
-    destruct (validate_refused_same _ _ _ _ _ _ _ _ _ _ _ _ Ev) as [_ [He|[He|He]]];
-      [discriminate | discriminate |].
+    destruct (validate_refused_cases _ _ _ _ _ _ _ _ _ _ _ _ Ev) as [[_ [He|[He|He]]]|[He _]];
+      [discriminate | discriminate | | discriminate].
     exact (update_ok_no_panic _ _ _ s (last_block_txs_ok _ Hc) He).
   Qed.
 
@@ -302,7 +302,12 @@ Section Ops.
         unfold block_ok. rewrite Htxs. apply Forall_app. split.
         * rewrite Forall_forall in *. intros t Ht. apply Hp. apply Hincl. exact Ht.
         * constructor; [apply reward_tx_ok | constructor].
-    - destruct (validate_refused_same _ _ _ _ _ _ _ _ _ _ _ _ Ev) as [-> _]. exact Hn.
+    - destruct (validate_refused_cases _ _ _ _ _ _ _ _ _ _ _ _ Ev) as [[-> _]|(_ & _ & _ & ->)];
+        [exact Hn|].
+      (* AddBlock refused the tick: the pool has been re-ordered, its elements are the same *)
+      destruct Hn as [Hp Hc]. split; cbn [n_pool n_c]; [|exact Hc].
+      destruct (n_pool n) as [l|]; [|constructor]. cbn [elems] in Hp |- *.
+      rewrite Forall_forall in *. intros t Ht. apply Hp. exact (permute_incl _ _ _ Ht).
   Qed.
 
   (* ---- verification of a neighbor's answer ---- *)
@@ -380,8 +385,9 @@ Section Ops.
     intros Hc Hn. destruct (verify_loop_ok lh now neigh 0 sh0 prev Hc Hn) as [Hnp Hok].
     destruct (verify_loop lh now 0 sh0 prev neigh) as [sh|e] eqn:El.
     - specialize (Hok sh eq_refl).
-      destruct (last_block (chain sh)) as [l|]; [|discriminate].
-      unfold add_block.
+      destruct (last_block (chain sh)) as [l|] eqn:Hlb; [|discriminate].
+      unfold add_block. rewrite Hlb.
+      destruct (b_ts l + s_interval Se <=? b_ts l)%Z; [discriminate|].
       destruct (add_block_raw_ok sh (make_block H sh (b_ts l + s_interval Se) None []) Hok)
         as [Ha _].
       destruct (add_block_raw sh (make_block H sh (b_ts l + s_interval Se) None [])) as [c'|e] eqn:Ea;
